@@ -42,6 +42,8 @@ Relevant files: {files}
 Already taken (do NOT repeat these ideas, look in other places of the code and at other clauses of the property):
 {taken}
 
+Earlier rounds already produced many changes in the obvious functions. Prefer less obvious routes to the same observable behaviour: alternative public entry points (constructors taking other argument types, property setters, dictionary-style access, iteration, comparison operators), state carried between messages or between calls on one object (caches, flags that are not reset), boundary sizes, letter case, rarely used header fields / schemes / codecs, and helper modules the listed files depend on (httoop/util.py, httoop/six.py, httoop/meta.py, the element base classes).
+
 Out of scope: a change that shows only when parse() is called AGAIN on a state machine whose previous parse() call already raised an exception (the state machine is not reusable after an error, on the unchanged library neither). Every history ends at the first raised status.
 
 Use only file names inside your own directories ({wt}, {o1}, {o2}): other agents work in /tmp at the same time, so never write to shared names such as /tmp/c1.diff or /tmp/scratch. Do NOT use `git stash` (the stash is shared with other checkouts); use `git checkout -- .` inside your worktree only.
